@@ -238,3 +238,44 @@ def run_manager_options(strategies):
         logging.disable(logging.NOTSET)
     book1 = str([(i, data.at[i, "asks"], data.at[i, "bids"]) for i in data.index])
     return results, book0, book1
+
+
+# ------------------------------------------------------------------------------------------------ triggers through the real bar loop (C18)
+def run_triggers(n, specs):
+    """run a strategy with the given time triggers through the real Actuator over n one-minute bars starting 08:00; returns, per trigger,
+    the minutes (offset from the first bar) at which its action was called.  specs: ("at", minute) | ("range", a, b) | ("period", p, immediate, pending)
+    | ("times", [minutes])"""
+    import logging
+    from datetime import timedelta
+    from demeter.core.actuator import Actuator
+    from demeter.strategy.trigger import AtTimeTrigger, AtTimesTrigger, TimeRangeTrigger, TimeRange, PeriodTrigger
+    config, data, bk = make(n)
+    t0 = data.data[KEY].index[0].to_pydatetime()
+    fired = [[] for _ in specs]
+
+    class S(Strategy):
+        def initialize(self):
+            for i, sp in enumerate(specs):
+                do = (lambda i: (lambda snapshot: fired[i].append(int((snapshot.timestamp - t0).total_seconds() // 60))))(i)
+                if sp[0] == "at":
+                    self.triggers.append(AtTimeTrigger(t0 + timedelta(minutes=sp[1]), do))
+                elif sp[0] == "times":
+                    self.triggers.append(AtTimesTrigger([t0 + timedelta(minutes=m) for m in sp[1]], do))
+                elif sp[0] == "range":
+                    self.triggers.append(TimeRangeTrigger(TimeRange(t0 + timedelta(minutes=sp[1]), t0 + timedelta(minutes=sp[2])), do))
+                else:
+                    self.triggers.append(PeriodTrigger(timedelta(minutes=sp[1]), do, trigger_immediately=sp[2], pending=timedelta(minutes=sp[3])))
+
+    logging.disable(logging.CRITICAL)
+    try:
+        a = Actuator()
+        m = config.markets[0]
+        a.broker.add_market(m)
+        m.data = data.data[KEY]
+        a.broker.set_balance(USDC, 1000)
+        a.strategy = S()
+        a.set_price(data.prices[0], data.prices[1])
+        a.run(False)
+    finally:
+        logging.disable(logging.NOTSET)
+    return fired
